@@ -41,7 +41,17 @@ static void run(const Script& s) {
         if (t[0] == "new") {
             uint32_t isn = (uint32_t)num(t[1]);
             dt.reset(new TCPIP::DataTracker(isn));
-            flow.reset(new TCPIP::Flow(srv, 80, isn));
+            // the flow learns its initial sequence number the way the stream follower's server-side flows do: constructed with a
+            // placeholder (0, or a number far away), then shown the SYN (odd isn: constructed with the number directly)
+            if (isn & 1) {
+                flow.reset(new TCPIP::Flow(srv, 80, isn));
+            } else {
+                flow.reset(new TCPIP::Flow(srv, 80, (isn & 2) ? 0 : isn + 0x80000001u));
+                IP syn = IP(srv, cli) / TCP(80, 1234);
+                syn.rfind_pdu<TCP>().flags(TCP::SYN);
+                syn.rfind_pdu<TCP>().seq(isn - 1);
+                flow->process_packet(syn);
+            }
             flow->data_callback([&](TCPIP::Flow&) { flow_data = true; });
             // legacy: SYN from the client, SYN|ACK from the server acknowledging isn
             IP ip1 = IP(srv, cli) / TCP(80, 1234);
